@@ -230,12 +230,64 @@ def run_check(prop, tier="quick", replay=None):
         "wall_s": round(time.time() - t0, 2),
         "violations": len(new),
     }
+    if tier == "thorough" and not replay and not os.environ.get("RBV_NO_SELFVALIDATION"):
+        ev["coverage"]["self_validation"] = self_validation(prop)
     with open(evidence_path, "w") as fh:
         json.dump(ev, fh, indent=1)
     summary = "property=%s tier=%s obligations=%d ok=%d known=%d new=%d unknown=%d (%.1fs)" % (
         prop, tier, len(ctx.obs), len(oks), len(kf), len(new), len(unknowns), time.time() - t0)
     print(("FAIL " if new else "PASS ") + summary)
     return 1 if new else 0
+
+
+def self_validation(prop):
+    """thorough tier: the kept breaking changes of this property (seeded/<id>/patch.diff, each confirmed to build, to
+    pass the whole test suite and to change behaviour) are applied one by one to scratch copies of the tree and the
+    quick check is run on each copy.  Reported in the evidence; it never changes the verdict on the tree itself."""
+    import glob
+    import shutil
+    import subprocess
+    import tempfile
+    from concurrent.futures import ThreadPoolExecutor
+    ids = sorted(os.path.basename(os.path.dirname(m)) for m in glob.glob(os.path.join(VERIF, "seeded", prop + "-*", "meta.json")))
+
+    def one(sid):
+        d = os.path.join(VERIF, "seeded", sid)
+        try:
+            meta = json.load(open(os.path.join(d, "meta.json")))
+        except Exception:
+            return sid, "unreadable"
+        if meta.get("obsolete"):
+            return sid, "obsolete"
+        tmp = tempfile.mkdtemp(prefix="rbv-selfval-")
+        try:
+            subprocess.run(["rsync", "-a", "--exclude", "target", "--exclude", ".git", facts.REPO.rstrip("/") + "/", tmp + "/"],
+                           check=True)
+            r = subprocess.run(["patch", "-p1", "-s", "-d", tmp, "-i", os.path.join(d, "patch.diff")],
+                               stdout=subprocess.PIPE, stderr=subprocess.STDOUT)
+            if r.returncode != 0:
+                return sid, "patch-failed"
+            rcs = []
+            for p_ in (meta.get("checks") or [prop]):
+                env = dict(os.environ, RBV_REPO=tmp, RBV_EVIDENCE_DIR=os.path.join(tmp, "_evidence"), VERIF_TIER="quick",
+                           RBV_NO_SELFVALIDATION="1")
+                r = subprocess.run([os.path.join(VERIF, "check"), p_, "--tier", "quick"], env=env,
+                                   stdout=subprocess.PIPE, stderr=subprocess.STDOUT)
+                rcs.append(r.returncode)
+            return sid, "reported" if 1 in rcs else ("check-error" if 2 in rcs else "not-reported")
+        except Exception as e:       # noqa
+            return sid, "error: %s" % e
+        finally:
+            shutil.rmtree(tmp, ignore_errors=True)
+    with ThreadPoolExecutor(max_workers=int(os.environ.get("RBV_SELFVAL_JOBS", "6"))) as ex:
+        res = dict(ex.map(one, ids))
+    return {
+        "what": "each kept breaking change of this property applied to a scratch copy, quick check run on the copy",
+        "changes": len(ids),
+        "reported": sorted(k for k, v in res.items() if v == "reported"),
+        "not_reported": sorted(k for k, v in res.items() if v == "not-reported"),
+        "other": {k: v for k, v in sorted(res.items()) if v not in ("reported", "not-reported")},
+    }
 
 
 def main(argv):
